@@ -28,23 +28,25 @@ pub fn spec() -> PropSpec {
 
 macro_rules! fixed {
     ($v:ident, $q:expr; $($n:literal),*) => { $(
-        $v.push(SubCheck::new(format!("fixed/U{}", 64 * $n), $q, fixed::fixed_case::<$n>).tape(24 + 5 * $n));
+        $v.push(SubCheck::new(format!("fixed/U{}", 64 * $n), $q, fixed::fixed_case::<$n>).tape(24 + 5 * $n).thorough(10));
     )* };
 }
 macro_rules! boxed_uint {
     ($v:ident, $q:expr; $($n:literal),*) => { $(
-        $v.push(SubCheck::new(format!("boxed/uint-rhs/U{}", 64 * $n), $q, boxed::boxed_uint_case::<$n>(40)).tape(240));
+        $v.push(SubCheck::new(format!("boxed/uint-rhs/U{}", 64 * $n), $q, boxed::boxed_uint_case::<$n>(40)).tape(240).thorough(10));
     )* };
 }
 
+// thorough = 10x the quick cases (about 12M cases; the engine keeps one fingerprint per distinct
+// non-trivial case in memory, so the multiplier is kept moderate).
 fn subchecks(_ctx: &Ctx) -> Vec<SubCheck> {
     let mut v = vec![];
-    v.push(SubCheck::new("limb/adc+sbb+mac+forms", 400_000, limb::limb_case).tape(24));
+    v.push(SubCheck::new("limb/adc+sbb+mac+forms", 400_000, limb::limb_case).tape(24).thorough(10));
     fixed!(v, 40_000; 1, 2, 3, 4);
     fixed!(v, 25_000; 5, 6, 7, 8, 9, 10, 11, 12);
     fixed!(v, 15_000; 16, 32);
-    v.push(SubCheck::new("boxed/boxed-rhs/1..=40", 120_000, boxed::boxed_boxed_case(40)).tape(240));
+    v.push(SubCheck::new("boxed/boxed-rhs/1..=40", 120_000, boxed::boxed_boxed_case(40)).tape(240).thorough(10));
     boxed_uint!(v, 25_000; 1, 2, 3, 4, 8, 16);
-    v.push(SubCheck::new("boxed/prim-rhs/u8..u128", 120_000, boxed::boxed_prim_case(40)).tape(120));
+    v.push(SubCheck::new("boxed/prim-rhs/u8..u128", 120_000, boxed::boxed_prim_case(40)).tape(120).thorough(10));
     v
 }
